@@ -61,6 +61,8 @@ pub enum Act {
     QueryPosition,
     /// execute `TerminalCommand::Image` for the session's test image at (1, 2)
     DrawImage,
+    /// `execute_many([CursorTo, Char, Image, Char, ImageErase, Char])`: one batch with image commands between others
+    ExecManyWithImage,
     /// the terminal answers the last image placement with an error (kitty graphics response)
     ImageError,
 }
@@ -662,11 +664,17 @@ pub fn execute(session: &Session, upto: usize, choices: Choices, verbose: bool) 
         polls_completed: 0,
         log: vec![],
         verbose,
-        replies: vec![
-            (b"\x1b[c".to_vec(), b"\x1b[?62;c".to_vec(), 0),
-            (b"\x1b[18t\x1b[14t".to_vec(), b"\x1b[8;24;80t\x1b[4;480;800t".to_vec(), 0),
-            (b"\x1b[6n".to_vec(), b"\x1b[3;5R".to_vec(), 0),
-        ]
+        // a "slow terminal" session scripts the answers to the cursor and device-attributes queries itself (they
+        // arrive only when the program would otherwise wait for ever)
+        replies: if session.name.contains("slow-terminal") {
+            vec![(b"\x1b[18t\x1b[14t".to_vec(), b"\x1b[8;24;80t\x1b[4;480;800t".to_vec(), 0)]
+        } else {
+            vec![
+                (b"\x1b[c".to_vec(), b"\x1b[?62;c".to_vec(), 0),
+                (b"\x1b[18t\x1b[14t".to_vec(), b"\x1b[8;24;80t\x1b[4;480;800t".to_vec(), 0),
+                (b"\x1b[6n".to_vec(), b"\x1b[3;5R".to_vec(), 0),
+            ]
+        }
         .into_iter()
         .chain(if session.kitty {
             vec![(b"\x1b_Ga=q,i=31,s=1,v=1,f=24;AAAA\x1b\\".to_vec(), b"\x1b_Gi=31;OK\x1b\\".to_vec(), 0usize)]
@@ -826,6 +834,32 @@ pub fn execute(session: &Session, upto: usize, choices: Choices, verbose: bool) 
                 expected.append(&b);
                 last_image_bytes = b;
             }
+            Act::ExecManyWithImage => {
+                let (img, pos) = test_image();
+                let before = [TerminalCommand::CursorTo(Position::new(1, 2)), TerminalCommand::Char('p')];
+                let between = [TerminalCommand::Char('q')];
+                let after = [TerminalCommand::Char('r')];
+                let mut b = vec![];
+                for c in &before {
+                    let _ = enc.encode(&mut b, c.clone());
+                }
+                let _ = surf_n_term::ImageHandler::draw(&mut shadow_handler, &mut b, &img, pos);
+                for c in &between {
+                    let _ = enc.encode(&mut b, c.clone());
+                }
+                let _ = surf_n_term::ImageHandler::erase(&mut shadow_handler, &mut b, &img, Some(pos));
+                for c in &after {
+                    let _ = enc.encode(&mut b, c.clone());
+                }
+                sh.borrow_mut().logf(|| format!("execute_many(6 commands incl. Image and ImageErase) -> {} bytes expected", b.len()));
+                let mut cmds: Vec<TerminalCommand> = before.to_vec();
+                cmds.push(TerminalCommand::Image(img.clone(), pos));
+                cmds.extend(between.iter().cloned());
+                cmds.push(TerminalCommand::ImageErase(img, Some(pos)));
+                cmds.extend(after.iter().cloned());
+                let _ = term.execute_many(cmds);
+                expected.append(&b);
+            }
             Act::ImageError => {
                 // the response names the id / placement of the last put, as the terminal would
                 let text = String::from_utf8_lossy(&last_image_bytes).to_string();
@@ -963,6 +997,46 @@ pub fn c16_problems(o: &Outcome) -> Vec<(String, String)> {
         }
         return p;
     }
+    // output the terminal produces itself when a window-size signal arrives and the size is tracked by escape
+    // sequences (the size request): it may appear between two chunks, never inside one
+    const SIZE_REQUEST: &[u8] = b"\x1b[18t\x1b[14t";
+    let mut stripped: Vec<u8> = Vec::with_capacity(app.len());
+    let mut request_at: Vec<usize> = vec![];
+    if o.injected.iter().any(|(i, at)| matches!(i, Inject::Winch) && *at != usize::MAX) {
+        let mut i = 0;
+        while i < app.len() {
+            if app[i..].starts_with(SIZE_REQUEST) {
+                request_at.push(stripped.len());
+                i += SIZE_REQUEST.len();
+            } else {
+                stripped.push(app[i]);
+                i += 1;
+            }
+        }
+    } else {
+        stripped.extend_from_slice(app);
+    }
+    let app = &stripped[..];
+    if !request_at.is_empty() {
+        if let Ok(states) = parse_stream(app, &o.app_chunks, complete) {
+            let mut boundaries = vec![0usize];
+            let mut pos = 0usize;
+            for (c, st) in o.app_chunks.iter().zip(states.iter()) {
+                match st {
+                    ChunkState::Present => pos += c.bytes.len(),
+                    ChunkState::Partial(n) => pos += n,
+                    ChunkState::Absent => {}
+                }
+                boundaries.push(pos);
+            }
+            for at in &request_at {
+                if !boundaries.contains(at) {
+                    p.push(("torn-frame".into(), format!("the terminal's own size request was written {at} bytes into the application's output, inside a chunk (chunk boundaries at {:?}): torn frame", boundaries)));
+                    break;
+                }
+            }
+        }
+    }
     if let Err(what) = parse_stream(app, &o.app_chunks, complete) {
         let kind = if what.contains("torn") {
             "torn-frame"
@@ -1081,9 +1155,11 @@ pub fn c17_problems(o: &Outcome, expect_events: &dyn Fn(&[u8]) -> Vec<TerminalEv
         })
         .collect();
     // graphics responses are consumed by the image handler, they are not owed to the application
+    // ... and reports (cursor position, device attributes, sizes) are answers to the terminal object's own queries,
+    // consumed by whoever asked
     let want: Vec<TerminalEvent> = expect_events(&all_input)
         .into_iter()
-        .filter(|e| !matches!(e, TerminalEvent::KittyImage { .. }))
+        .filter(|e| !matches!(e, TerminalEvent::KittyImage { .. } | TerminalEvent::Size(_) | TerminalEvent::DeviceAttrs(_) | TerminalEvent::CursorPosition(_)))
         .collect();
     let got: Vec<TerminalEvent> = got.into_iter().filter(|e| !matches!(e, TerminalEvent::KittyImage { .. })).collect();
     if complete_session {
@@ -1293,6 +1369,24 @@ pub fn sessions_c16() -> Vec<Session> {
         probe: true,
         kitty: true,
     });
+    // the window size is tracked by escape sequences (no pixel size from the ioctl): a window-size signal makes the
+    // terminal itself produce output (the size request), which must queue up behind the program's output
+    v.push(Session {
+        name: "size-request-behind-output",
+        acts: vec![Write(8), Poll(Some(0)), Write(3), Poll(Some(0)), Poll(Some(0))],
+        allowed: vec![(Inject::Winch, 1)],
+        stall_selects: 0,
+        probe: true,
+        kitty: false,
+    });
+    v.push(Session {
+        name: "batch-with-image",
+        acts: vec![Write(2), ExecManyWithImage, Write(3), Poll(Some(0)), Poll(Some(0))],
+        allowed: vec![],
+        stall_selects: 0,
+        probe: true,
+        kitty: true,
+    });
     v.push(Session {
         name: "image-behind-frame-then-drop",
         acts: vec![Write(3), Flush, DrawImage, Write(4), Flush, Write(2), FramesDrop, Poll(Some(0)), Poll(Some(0))],
@@ -1367,6 +1461,16 @@ pub fn sessions_c17() -> Vec<Session> {
             kitty: false,
         },
         // several keys typed before the cursor position is asked for: position() sets them aside and puts them back
+        // the terminal answers the queries of position() late: whatever position() set aside while it waited (here a
+        // wake request that was pending when it started) is still delivered afterwards
+        Session {
+            name: "position-query-slow-terminal",
+            acts: vec![Arrive(Inject::Wake), Schedule(inp(b"\x1b[3;5R")), Schedule(inp(b"\x1b[?62;c")), QueryPosition, Poll(Some(0)), Poll(Some(0))],
+            allowed: vec![],
+            stall_selects: 0,
+            probe: false,
+            kitty: false,
+        },
         Session {
             name: "position-query-three-keys",
             acts: vec![Write(4), Arrive(inp(b"abc")), QueryPosition, Poll(Some(0)), Poll(Some(0)), Poll(Some(0)), Poll(Some(0))],
@@ -1818,6 +1922,97 @@ pub fn commands_on_real_terminal(term_env: &str, colorterm: Option<&str>, trueco
     Ok((depth, g[begin..end].to_vec()))
 }
 
+/// Arrival order with the real kernel answering `select` (no kernel model: the H2 seam hands the harness descriptor
+/// lists, so what the library makes of a real `select` result - the tty readable AND writable in one round - is only
+/// exercised here). 256 one-byte frames are queued, the peer types `a`, one poll runs, SIGWINCH is raised, polls
+/// continue: the key was there first and must be delivered before the resize. Returns (runs, problems).
+pub fn arrival_order_check() -> Result<(u64, Vec<(String, String)>), String> {
+    use std::sync::atomic::{AtomicBool, Ordering};
+    use std::sync::Arc;
+    prepare_process();
+    let mut problems = vec![];
+    let mut runs = 0u64;
+    for frames in [256usize, 40] {
+        let (master, slave) = open_pty()?;
+        let stop = Arc::new(AtomicBool::new(false));
+        let mfd = master.as_raw_fd();
+        let peer = {
+            let stop = stop.clone();
+            std::thread::spawn(move || {
+                let mut buf = vec![0u8; 4096];
+                let mut tail: Vec<u8> = vec![];
+                loop {
+                    let mut p = libc::pollfd { fd: mfd, events: libc::POLLIN, revents: 0 };
+                    let r = unsafe { libc::poll(&mut p, 1, 10) };
+                    if r > 0 && (p.revents & libc::POLLIN) != 0 {
+                        let n = unsafe { libc::read(mfd, buf.as_mut_ptr() as *mut libc::c_void, buf.len()) };
+                        if n > 0 {
+                            tail.extend_from_slice(&buf[..n as usize]);
+                            while let Some(pos) = tail.windows(3).position(|w| w == b"\x1b[c") {
+                                tail.drain(..pos + 3);
+                                let reply = b"\x1b[?62;c";
+                                unsafe { libc::write(mfd, reply.as_ptr() as *const libc::c_void, reply.len()) };
+                            }
+                            let keep = tail.len().min(2);
+                            tail.drain(..tail.len() - keep);
+                            continue;
+                        }
+                    }
+                    if stop.load(Ordering::SeqCst) {
+                        break;
+                    }
+                    if r > 0 && (p.revents & (libc::POLLHUP | libc::POLLERR)) != 0 {
+                        std::thread::sleep(Duration::from_millis(1));
+                    }
+                }
+            })
+        };
+        let mut term = SystemTerminal::new_from_fd(slave).map_err(|e| format!("{e:?}"))?;
+        while let Ok(Some(_)) = term.poll(Some(Duration::from_millis(20))) {}
+        for _ in 0..frames {
+            let _ = term.write_all(b"x");
+            let _ = term.flush();
+        }
+        unsafe { libc::write(mfd, b"a".as_ptr() as *const libc::c_void, 1) };
+        std::thread::sleep(Duration::from_millis(50));
+        let mut events: Vec<TerminalEvent> = vec![];
+        if let Ok(Some(e)) = term.poll(Some(Duration::from_millis(0))) {
+            events.push(e);
+        }
+        unsafe { libc::raise(libc::SIGWINCH) };
+        for _ in 0..4096 {
+            if let Ok(Some(e)) = term.poll(Some(Duration::from_millis(0))) {
+                events.push(e);
+            }
+            let key = events.iter().any(|e| matches!(e, TerminalEvent::Key(_)));
+            let resize = events.iter().any(|e| matches!(e, TerminalEvent::Resize(_)));
+            if key && resize {
+                break;
+            }
+        }
+        runs += 1;
+        let order: Vec<&str> = events
+            .iter()
+            .filter_map(|e| match e {
+                TerminalEvent::Key(_) => Some("key"),
+                TerminalEvent::Resize(_) => Some("resize"),
+                _ => None,
+            })
+            .collect();
+        if order != ["key", "resize"] {
+            problems.push((
+                "arrival-order:key-then-winch".to_string(),
+                format!("{frames} one-byte frames pending, the peer typed `a`, one poll, then SIGWINCH: events were delivered as {:?} (all: {:?})", order, events),
+            ));
+        }
+        drop(term);
+        stop.store(true, Ordering::SeqCst);
+        let _ = peer.join();
+        drop(master);
+    }
+    Ok((runs, problems))
+}
+
 /// Descriptor placements (no kernel model: real system calls). The caller of `new_from_fd` decides which
 /// descriptor number the tty has; the numbers of the descriptors the terminal allocates afterwards (signal pipe,
 /// waker pipe) depend on which numbers are free. All placements of a small family are run: the tty below / above
@@ -2048,7 +2243,7 @@ pub fn conformance_run_on(master: OwnedFd, slave: OwnedFd, session: &Session, pa
             Act::Arrive(Inject::Wake) | Act::Schedule(Inject::Wake) => {
                 let _ = term.waker().wake();
             }
-            Act::Arrive(_) | Act::Schedule(_) | Act::RunRender(_) | Act::QueryPosition | Act::DrawImage | Act::ImageError => {}
+            Act::Arrive(_) | Act::Schedule(_) | Act::RunRender(_) | Act::QueryPosition | Act::DrawImage | Act::ExecManyWithImage | Act::ImageError => {}
         }
     }
     for _ in 0..200 {
